@@ -59,7 +59,7 @@ def check_reuse(case, stats):
     a = rvdrive.new_sim("five", False, case.get("dcache"), None)
     try:
         a.load_program(WARM)
-        a.run()
+        core.call_with_limit(a.run, 60, "run-does-not-return", case, "run() of the three-instruction warm-up program")
         a.load_program(text)
         b = rvdrive.new_sim("five", False, case.get("dcache"), None)
         b.load_program(text)
